@@ -33,7 +33,7 @@ REG = ["root/a.c", "root/b.h", "root/notes.txt", "root/noext", "root/a b.c", "ro
        "root/x.c++", "root/d1/y.h++", "root/z.ccc", "root/w.hhh", "root/k.F90", "root/up.C", "root/t.cu", "root/m.cpp.txt",
        "root/v.S", "root/n.f9"]
 LINKS = {"root/lnk_d1": "root/d1", "root/la.c": "root/a.c", "root/lout.c": "outside/o.c", "root/dangling.c": "root/nowhere.c",
-         "root/lnk_out": "outside", "root/d1/back": "root"}
+         "root/lnk_out": "outside", "root/d1/back": "root", "root/d1/d2/up": "root/a"}
 
 
 def build_tree(base):
@@ -118,8 +118,10 @@ def check_chunk(args):
                     for s in sps:
                         for form in ("abs", "rel"):
                             p = real(base, s)
-                            if form == "rel":
-                                p = os.path.relpath(os.path.join(base, *s[1:-1]), root) + "/" + s[-1] if len(s) > 2 else p
+                            if form == "rel" and len(s) > 2:
+                                # relative to the root, component by component (no lexical normalisation: a ".."
+                                # after a directory link must stay where it is)
+                                p = "/".join(s[2:]) if s[1] == "root" else "../" + "/".join(s[1:])
                             stats["evals"] += 1
                             got = p in cb
                             if got != want:
